@@ -355,6 +355,15 @@ def r2_trace(toks, stats):
             stats["R2.trace"] = stats.get("R2.trace", 0) + 1
             i = j
             continue
+        # `let _span = trace_span!(..)[.entered()];`
+        if t.s == "let" and i + 4 < n and toks[i + 1].s in ("_span", "_guard", "_enter") and toks[i + 2].s == "=" and toks[i + 3].s in ("trace_span", "debug_span", "info_span") and toks[i + 4].s == "!":
+            j = i
+            while toks[j].s != ";":
+                if toks[j].k == "o": j = m[j]
+                j += 1
+            stats["R2.span"] = stats.get("R2.span", 0) + 1
+            i = j + 1
+            continue
         # .instrument(...)
         if t.s == "." and i + 2 < n and toks[i + 1].s == "instrument" and toks[i + 2].s == "(":
             i = m[i + 2] + 1
